@@ -373,6 +373,10 @@ func (m *Map[K, V]) decodeInto(target any) error {
 			// Look for aliases, and choose the first with a value.
 			atag, _ := field.Tag.Lookup("aliases")
 			for _, alias := range strings.Split(atag, ",") {
+				if alias == "" {
+					// No aliases tag (or a stray comma): "" is not an alias.
+					continue
+				}
 				value, has = tm.Get(alias)
 				if has {
 					key = alias
